@@ -295,6 +295,43 @@ func TestC13Sync(t *testing.T) {
 					}
 					sib.Close()
 				}
+				if rootType == node.RootTypeState && v >= 2 && hop == 0 && rapid.IntRange(0, 3).Draw(t, "failedAttempt") == 0 {
+					// A commit that the database refuses (into the previous, already finalized version), then - optionally after
+					// further updates - the same tree is committed again, into the right version. Whatever the tree keeps from the
+					// failed attempt, the transition that ends up stored is startModel -> model and its log must say so.
+					if _, _, ferr := tree.Commit(ctx, kv.Namespace, v-1); ferr != nil {
+						rec.Label("failed-commit-attempt-then-retry:" + srcBackend)
+						trace = append(trace, fmt.Sprintf("v%d: commit attempt into finalized version %d refused (%s)", v, v-1, errClass(ferr)))
+						more, _ := genBatch(t, uni, model)
+						if len(more) > 2 {
+							more = more[:2]
+						}
+						if rapid.Bool().Draw(t, "updatesBeforeRetry") {
+							for _, o := range more {
+								if o.Kind == "I" {
+									if err := tree.Insert(ctx, o.Key, o.Val); err != nil {
+										fail("tree", "insert after a refused commit: %v", err)
+									}
+									model[string(o.Key)] = o.Val
+								} else {
+									if err := tree.Remove(ctx, o.Key); err != nil {
+										fail("tree", "remove after a refused commit: %v", err)
+									}
+									delete(model, string(o.Key))
+								}
+							}
+							trace = append(trace, fmt.Sprintf("v%d: %d further updates before the retry", v, len(more)))
+							rec.Label("failed-commit-attempt-then-retry:with-updates")
+						}
+						ntBatch = true
+					} else {
+						// (the version was not finalized after all: the history took another turn, nothing to compare with)
+						rec.Discard("commit-into-previous-version-accepted")
+						tree.Close()
+						tree = nil
+						return
+					}
+				}
 				commitLog, rh, err := tree.Commit(ctx, kv.Namespace, v)
 				if err != nil {
 					rec.Label("commit-not-accepted:" + srcBackend)
